@@ -446,7 +446,7 @@ func tickerIntField(v ssa.Value) string {
 		return ""
 	}
 	fa, ok := ld.X.(*ssa.FieldAddr)
-	if !ok || !isNamedType(fa.X.Type(), "xtime", "JitterTicker") {
+	if !ok || !isTickerOwned(fa.X.Type()) {
 		return ""
 	}
 	return fieldName(fa.X.Type(), fa.Field)
@@ -694,7 +694,7 @@ func bumpsGen(fn *ssa.Function, genF string, depth int) (ssa.Instruction, bool) 
 			return false
 		}
 		fa, ok := argOf(prm, d.calls).(*ssa.FieldAddr)
-		return ok && isNamedType(fa.X.Type(), "xtime", "JitterTicker") && fieldName(fa.X.Type(), fa.Field) == genF
+		return ok && isTickerOwned(fa.X.Type()) && fieldName(fa.X.Type(), fa.Field) == genF
 	}
 	for _, d := range deepInstrs(fn, 2) {
 		if !isBump(d) || !uncond(d.in) || !uncond(d.site) {
@@ -743,7 +743,7 @@ func ruleTickGate(c *Ctx, r *R) {
 					continue
 				}
 				fa, ok := ld.X.(*ssa.FieldAddr)
-				if !ok || !isNamedType(fa.X.Type(), "xtime", "JitterTicker") {
+				if !ok || !isTickerOwned(fa.X.Type()) {
 					continue
 				}
 				n++
@@ -998,7 +998,7 @@ var _ = late(func() {
 					if !ok {
 						return ""
 					}
-					if isNamedType(fa.X.Type(), "xtime", "JitterTicker") {
+					if isTickerOwned(fa.X.Type()) {
 						return fieldName(fa.X.Type(), fa.Field)
 					}
 					addr = fa.X
@@ -1196,4 +1196,33 @@ func periodRole(p *ssa.Parameter) string {
 func isJitterParam(v ssa.Value) bool {
 	p, ok := v.(*ssa.Parameter)
 	return ok && periodRole(p) == "jitter"
+}
+
+
+// isTickerOwned: t is JitterTicker, or a struct type of the package that JitterTicker holds by value in one of its fields (a
+// group of the ticker's fields moved into a small struct: armed armedTimer{gen, timer}) - such fields are the ticker's own.
+func isTickerOwned(t types.Type) bool {
+	if isNamedType(t, "xtime", "JitterTicker") {
+		return true
+	}
+	nt, ok := derefType(t).(*types.Named)
+	if !ok || curCtx == nil || nt.Obj().Pkg() == nil {
+		return false
+	}
+	tn := curCtx.lookupType("xtime", "JitterTicker")
+	if tn == nil || tn.Pkg() != nt.Obj().Pkg() {
+		return false
+	}
+	st, ok := tn.Type().Underlying().(*types.Struct)
+	if !ok {
+		return false
+	}
+	for i := 0; i < st.NumFields(); i++ {
+		if ft, ok := st.Field(i).Type().(*types.Named); ok && ft.Origin() == nt.Origin() {
+			if _, isSt := ft.Underlying().(*types.Struct); isSt {
+				return true
+			}
+		}
+	}
+	return false
 }
